@@ -19,6 +19,35 @@ def fail_scenarios(rng, n):
     return out
 
 
+def stale_scenarios(rng, n):
+    """two calls on one pool with the SAME function: the first is cut short (a lazy call closed early, or a call that fails while a
+    sibling task is still running for seconds in a thread) while tasks of it are still queued; whatever the second call's function is
+    entered for must be the second call's own inputs"""
+    out = []
+    for _ in range(n):
+        nj = rng.choice([1, 2, 3])
+        elem = rng.choice(['scalar', 'tuple'])
+        n1 = rng.randint(6, 16)
+        if rng.random() < .5:
+            pool = {'n_jobs': nj, 'start_method': rng.choice(['fork', 'threading'])}
+            op1 = {'op': rng.choice(['imap', 'imap_unordered']), 'n': n1, 'chunk_size': rng.choice([1, 2]), 'elem': elem, 'consume': rng.randint(1, 3), 'abandon': 'close',
+                   'max_tasks_active': rng.choice([None, 4, 8]), 'dur': {'kind': 'hash', 'salt': rng.randint(0, 99), 'unit': 0.01}}
+            if op1['max_tasks_active'] is None:
+                op1.pop('max_tasks_active')
+        else:
+            pool = {'n_jobs': max(2, nj), 'start_method': 'threading'}
+            bad = rng.randrange(2)
+            op1 = {'op': rng.choice(['map', 'map_unordered']), 'n': n1, 'chunk_size': rng.choice([2, 3]), 'elem': elem, 'fail': {'at': [bad], 'exc': 'ValueError'},
+                   'dur': {'kind': 'map', 'map': {str(op_i): rng.choice([1.5, 3.0]) for op_i in [rng.choice([3, 4, 5])]}, 'default': 0.0}}
+        if rng.random() < .4:
+            pool['keep_alive'] = True
+        ordered = op1['op'] in ('map', 'imap')
+        op2 = {'op': rng.choice(['map', 'imap'] if ordered else ['map_unordered', 'imap_unordered']), 'n': rng.randint(3, 10), 'chunk_size': rng.choice([1, 2]), 'elem': elem,
+               'dur': {'kind': 'hash', 'salt': rng.randint(0, 99), 'unit': 0.02}}
+        out.append({'seed': rng.randint(0, 10 ** 6), 'pool': pool, 'ops': [op1, op2], 'same_func': True, 'relax_shape': True})
+    return out
+
+
 def run(chk):
     rng = chk.rng
     N = 300 if chk.tier == 'quick' else 5000
@@ -41,6 +70,10 @@ def run(chk):
                          nontrivial=lambda sc, o: len(o.get('calls', [])) >= 1,
                          dist=lambda sc, o: {'outcome': (o.get('ops') or [{}])[0].get('outcome')})
     proto_correspondence(chk, 'protocol traces vs Mpire.Proto.step (failure)', fs, fobs)
+    st = stale_scenarios(rng, 120 if chk.tier == 'quick' else 2000)
+    run_scenarios(chk, 'a call after one that was cut short, same function: nothing of the earlier call is executed during it', st, {'C02', 'C01'},
+                  nontrivial=lambda sc, o: True, dist=lambda sc, o: {'first_call': 'closed early' if sc['ops'][0].get('abandon') else 'failed with a long sibling',
+                                                                     'start': sc['pool']['start_method']})
     chk.assumptions += ['a task interrupted mid-function counts as entered', 'DetSim scheduler granularity: primitive operations']
 
     def search():
